@@ -248,32 +248,8 @@ def run(ck):
         ok = ok and src is not None and u(src) == 'set(found.nodes) - set(match.values())'
     ck.ob('PROV-surplus', rg.loc(rgf), ok, 'an atom of the old residue that the requested block/modification does not account for is removed exactly when the residue '
           'carries a mutation or modification request', key='PROV-surplus')
-    # ------------------------------------------------------------ the reference block is built from *every* request of the residue
-    rgm = ck.index.mod(RG)
-    grr = rgm.func('_get_reference_residue')
-    ck.analysed(rgm, grr)
-    ml = [l for l in ast.walk(grr) if isinstance(l, ast.For) and u(l.iter) in ('modifications', "residue['modification']")]
-    ok = len(ml) == 1
-    detail = ''
-    if ok:
-        patches = stmts_with_env(grr, lambda s_: isinstance(s_, ast.Assign) and call_name(s_.value) == '_patch_modification', stmts=ml[0].body)
-        ok = len(patches) == 1 and not any(isinstance(n, (ast.Break, ast.Return)) for n in ast.walk(ml[0]))
-        if ok:
-            st, cond, env = patches[0]
-            var = u(ml[0].target)
-            want = ('not', ('atom', ('Eq', "'none'", var)))
-            alt = ('not', ('atom', ('Eq', var, "'none'")))
-            ok = (flow.equivalent(cond, want)[0] or flow.equivalent(cond, alt)[0]) and u(st.targets[0]) == 'reference_block' and \
-                u(st.value.args[0]) == 'reference_block' and u(flow.subst(st.value.args[1], env)) == 'force_field.modifications[{}]'.format(var)
-            detail = flow.show(cond)[:80]
-    ck.ob('MPT-all-requests', rgm.loc(grr), ok, 'every modification requested for the residue, except the placeholder "none", is patched onto the reference block, cumulatively, '
-          'and no request ends the loop early ({})'.format(detail), key='MPT-all-requests|reference-modifications')
-    rb = assignments_to(grr, 'reference_block')
-    first = u(rb[0]) if rb else ''
-    rn = assignments_to(grr, 'resname')
-    ok = first == 'force_field.reference_graphs[resname]' and sorted(u(v) for v in rn) == sorted(['mutation', "residue['resname']"]) and \
-        'mutation = mutation[0]' in u(grr) and 'if not are_all_equal(mutation):' in u(grr)
-    ck.ob('MPT-all-requests', rgm.loc(grr), ok, 'the reference block is the block named by the mutation request when there is one (conflicting requests are an error), '
-          'else the block of the residue name', key='MPT-all-requests|reference-block')
+    shared.reference_residue_rules(ck, 'MPT-all-requests')
     shared.truthy_zero(ck, [AM, RG])
+    shared.runs_every_molecule(ck, 'vermouth/processors/annotate_mut_mod.py', 'AnnotateMutMod', 'MPT-every-molecule')
+    shared.runs_every_molecule(ck, 'vermouth/processors/repair_graph.py', 'RepairGraph', 'MPT-every-molecule')
     ck.assume('specification parsing ambiguities and terminal detection on branched residue graphs are not decided')
